@@ -57,3 +57,44 @@ extern "C" void h_features()
     vp_assert(!canNegotiate || (vp_c04_sent_n() == 1 && vp_c04_sent_tag(0) == T_STARTTLS && fx.listenerIsStarttls() && vp_c04_disconnects() == 0),
               "C04 if TLS can be negotiated exactly the STARTTLS request is sent and the STARTTLS step listens");
 }
+
+static QDomElement vpElement(const QString &tag, const QString &ns) { QDomElement e; vp_dom_new(&e, &tag, &ns); return e; }
+static void vpAttr(QDomElement &el, const QString &name, const QString &value) { vp_dom_set_attr(&el, &name, &value); }
+
+// ---- H2: a <stream:stream> header arrives; id / from / version attributes present or absent, values arbitrary ----------------------
+enum { EL_VERSION = 1 << CFG_EL_SHIFT, EL_ID = 2 << CFG_EL_SHIFT, EL_FROM = 4 << CFG_EL_SHIFT };
+extern "C" void h_stream()
+{
+    Fx &fx = *new Fx;
+    QDomElement el = vpElement(QStringLiteral("stream"), ns_stream.toString());
+    if (vp_c04_cfg() & EL_ID) vpAttr(el, QStringLiteral("id"), vpSymStringNonEmpty(2));
+    if (vp_c04_cfg() & EL_FROM) vpAttr(el, QStringLiteral("from"), vpSymStringNonEmpty(2));
+    if (vp_c04_cfg() & EL_VERSION) vpAttr(el, QStringLiteral("version"), vpSymStringNonEmpty(3));
+    bool legacy = !(vp_c04_cfg() & CFG_STREAM_VERSION) && !(vp_c04_cfg() & EL_VERSION) && fx.d->config.useNonSASLAuthentication();
+    bool wasStarttls = fx.listenerIsStarttls();
+    fx.q->handleStream(el);
+    fx.checkPost();
+    vp_assert(!vp_c04_encrypted() && vp_c04_start_encryption_calls() == 0, "C04 a stream header does not start encryption");
+    vp_assert(vp_c04_sent_n() == 0, "C04 nothing is sent in reaction to a stream header on a link that still has to be encrypted");
+    // a version-less (pre XMPP 1.0) stream offers no STARTTLS: where the client would fall back to legacy authentication it must give up instead
+    vp_assert(!legacy || vp_c04_disconnects() >= 1, "C04 version-less stream with legacy authentication enabled: TLS cannot be negotiated, the client disconnects");
+    vp_assert(legacy || (vp_c04_disconnects() == 0 && fx.listenerIsStarttls() == wasStarttls), "C04 otherwise a stream header changes neither the listener nor the connection");
+}
+
+// ---- H3a: the STARTTLS step listens and an arbitrary small element arrives ------------------------------------------------------------
+enum { EL_NS_TLS = 1 << CFG_EL_SHIFT };
+extern "C" void h_packet_starttls()
+{
+    Fx &fx = *new Fx;     // instance cfg has CFG_PRE_STARTTLS
+    QString tag = vpSymStringNonEmpty(8);
+    QString ns = (vp_c04_cfg() & EL_NS_TLS) ? ns_tls.toString() : vpSymString(2);
+    QDomElement el = vpElement(tag, ns);
+    bool proceed = (vp_c04_cfg() & EL_NS_TLS) && tag == QStringLiteral("proceed");
+    fx.q->handlePacketReceived(el);
+    fx.checkPost();
+    vp_assert(vp_c04_sent_n() == 0, "C04 nothing is sent in reaction to the server's answer to STARTTLS");
+    vp_assert(!proceed || (vp_c04_encrypted() && vp_c04_start_encryption_calls() == 1 && vp_c04_disconnects() == 0 && fx.listenerIsClient()),
+              "C04 <proceed/>: encryption starts, nothing else happens, the client itself listens again");
+    vp_assert(proceed || (!vp_c04_encrypted() && vp_c04_start_encryption_calls() == 0 && vp_c04_disconnects() >= 1 && vp_c04_sig_error() >= 1),
+              "C04 anything but <proceed/> (e.g. <failure/>): TLS cannot be negotiated, the client reports an error and disconnects");
+}
